@@ -84,7 +84,7 @@ static Json delivery(G &g, u64 mask, int n, bool shape_faults) {
         if (r.chance(1, 2)) r.shuffle(idx);
         if (!idx.empty() && r.chance(1, 5)) {
             // duplicated delivery; now and then a flood of duplicates (more entries than the stripe has fragments)
-            int d = r.chance(1, 8) ? (int) r.range(n, 2 * n + 3) : (int) r.range(1, 3);
+            int d = r.chance(1, 8) ? (r.chance(1, 3) ? (int) r.range(30, 80) : (int) r.range(n, 2 * n + 3)) : (int) r.range(1, 3);
             for (int i = 0; i < d; i++) idx.insert(idx.begin() + r.below(idx.size() + 1), idx[r.below(idx.size())]);
         }
     }
@@ -335,6 +335,11 @@ static void gen_c06(G &g, bool isal) {
         Json j = mk("PLAN"); j.set("slot", 0).set("obj", 0).set("confirm", r.chance(1, 2) ? 1 : 0);
         j.set("R", Json::ints(std::vector<int>(v.begin(), v.begin() + nr))).set("X", Json::ints(std::vector<int>(v.begin() + nr, v.end())));
         if (r.chance(1, 8) && tot <= tol) j.set("dupX", Json::ints({v[r.below((u64) nr)]}));   // an index to rebuild that is also named in the exclude list
+        if (r.chance(1, 10) && tot <= tol) {   // lists with repeats, up to a few hundred entries; some with a distinct index first appearing after position 32 / 64
+            static const int lens[] = {2, 5, 31, 32, 33, 63, 64, 65, 66, 100, 200, 300};
+            Json pd = Json::obj(); pd.set("seed", (i64) (r.next() >> 20)).set("R", r.chance(2, 3) ? lens[r.below(12)] : 0).set("X", r.chance(1, 2) ? lens[r.below(12)] : 0).set("front", (int) r.below(2));
+            j.set("pad", pd);
+        }
         g.ops.push(j);
     }
 }
